@@ -1143,7 +1143,79 @@ func c18SubEncoders(c *bx.Ctx) {
 	}
 }
 
+// c18ColdAudit runs before anything else has called into package rtcp (a worker is a fresh process):
+// every kind of operation once per type, with the package-level variables digested at every statement.
+// A package variable that changes while the code is outside every sync protection (Once body, held
+// write lock) is unsynchronised mutable shared state — typically a lazily filled cache or table, which
+// later runs, once warm, no longer write to and therefore cannot show.
+func c18ColdAudit(c *bx.Ctx) {
+	c.Space("cold-start-audit")
+	if !c.Mine() {
+		return
+	}
+	if !InstrBuild {
+		c.Note("cold-start audit needs the instrumented build: skipped")
+		return
+	}
+	last := globalsSnapshot()
+	prevDepth := 0
+	busy := false
+	cur := ""
+	found := false
+	stmts := 0
+	rawHookSet(func() {
+		if busy || found {
+			return
+		}
+		busy = true
+		stmts++
+		d := globalsSnapshot()
+		if d != last {
+			if prevDepth == 0 {
+				found = true
+				c.Report(keyJoin("C18/cold-start", "package-variable-written-unsynchronised"), "a package-level variable is written outside every sync protection during the first "+cur+" of the process (lazily filled shared state)",
+					bx.Replay{Entry: "cold-start-audit", Ops: cur, Expected: firstDiffLine(last, d, true), Observed: firstDiffLine(last, d, false)})
+			}
+			last = d
+		}
+		prevDepth = syncDepthGet()
+		busy = false
+	})
+	defer rawHookSet(nil)
+	for _, o := range c18Objects() {
+		w, _, _ := safeMarshal(o.alt())
+		for _, op := range c18Ops {
+			if found {
+				return
+			}
+			if op.has == nil || op.has(o.mk()) {
+				cur = op.name + " on " + o.typ
+				_, _ = bx.Guard(func() { op.run(o.mk(), o.typ, append([]byte{}, w...)) })
+				c.T(1)
+			}
+		}
+	}
+	c.Count("cold-start-statements-audited", int64(stmts))
+	if !found {
+		c.NT()
+	}
+}
+
+func firstDiffLine(a, b string, first bool) string {
+	la, lb := strings.Split(a, "\n"), strings.Split(b, "\n")
+	for i := 0; i < len(la) && i < len(lb); i++ {
+		if la[i] != lb[i] {
+			if first {
+				return bx.ShortStr(la[i])
+			}
+			return bx.ShortStr(lb[i])
+		}
+	}
+	return "(lengths differ)"
+}
+
 func runC18(c *bx.Ctx) {
+	c18ColdAudit(c)
 	c18SubEncoders(c)
 	c18Purity(c)
 	c18Histories(c)
